@@ -162,7 +162,7 @@ func (p *untypedParamBinder) Bind(request *http.Request, routeParams RouteParams
 		return p.bindValue(data, hasKey, target)
 
 	case "header":
-		data, custom, hasKey, err := p.readValue(runtime.Values(request.Header), target)
+		data, custom, hasKey, err := p.readValue(headerValues(request.Header), target)
 		if err != nil {
 			return err
 		}
@@ -268,6 +268,14 @@ func (p *untypedParamBinder) Bind(request *http.Request, routeParams RouteParams
 	default:
 		return errors.New(http.StatusInternalServerError, fmt.Sprintf("invalid parameter location %q", p.parameter.In))
 	}
+}
+
+// headerValues looks header fields up by their canonical name: header names are
+// case-insensitive, whatever the spelling used in the parameter declaration.
+type headerValues http.Header
+
+func (h headerValues) GetOK(key string) ([]string, bool, bool) {
+	return runtime.Values(h).GetOK(http.CanonicalHeaderKey(key))
 }
 
 func (p *untypedParamBinder) bindValue(data []string, hasKey bool, target reflect.Value) error {
